@@ -132,6 +132,9 @@ def kill_once(ctx, exe, lib, v, mode, kind, point, cache, namer_map, reference):
     rec["state"], rec["litter"] = state, litter
     # the follow-up build: a fresh process, same kernel, same cache directory
     frc, fout = C.run(C.harness_argv(exe, mode, kind, verbose=True), env, 240)
+    if frc is None:
+        rec["problem"] = "followup-timeout"      # overload or hang: not decidable here, counted as not imposed
+        return rec
     res = C.result_of(fout)
     rec["followup"] = {"rc": frc, "result": list(res) if res else None,
                        "compiled": "Compiling [" in (fout or ""), "loaded": "Loading cached [" in (fout or "")}
